@@ -42,7 +42,8 @@ THEOREMS = ['C05_rest_isothermal_steady', 'C05_primeq_column_refines_spec', 'C05
             'C05_whole_state_rest_isothermal_steady', 'C05_whole_state_rest_hyps_satisfiable',
             'C05_sw_model_refines_spec', 'C05_sw_model_jet_steady_partial', 'C05_sw_model_hyps_satisfiable',
             'C05_sw_concrete_refines_spec', 'C05_sw_concrete_hyps_satisfiable',
-            'C05_whole_state_rest_isothermal_steady_moist', 'C05_whole_state_rest_moist_hyps_satisfiable']
+            'C05_whole_state_rest_isothermal_steady_moist', 'C05_whole_state_rest_moist_hyps_satisfiable',
+            'C05_whole_state_refines_spec', 'C05_whole_state_solid_body_steady_partial']
 LEVEL = 'proof'
 LEVEL_TEXT = ('machine-checked theorems (Coq), every field, every layer count, every level set: the nodal column algebra of '
               'the implementation (explicit + implicit) equals the documented vertical discretisation of the continuous '
@@ -61,7 +62,7 @@ LEVEL_TEXT = ('machine-checked theorems (Coq), every field, every layer count, e
               'which they hard-code). The implementation is tied to the specification by exploration: total tendency '
               'against an independent exact polynomial evaluation of the continuous equations on alias-free states, and '
               'tendency norms of the balanced families')
-LEVEL_NOTE = ('three groups of theorems: (A) rest state on the model with abstract linear transforms, (B) column refinement of '
+LEVEL_NOTE = ('round 2: on the EXECUTED whole-state models (Model/PrimEqFull.v dry and moist, Model/ShallowWater.v) the rest state is proved steady (dry: no table hypothesis left; moist: H_q_uniform, H_gradq_zero, H_lap_one, H_lapn on the index ranges), the concrete shallow-water operators are proved linear and C05_sw_concrete_refines_spec holds for sw_explicit_terms + implicit terms under H_sw_pot_clip, H_sw_div_vel, and C05_whole_state_refines_spec lifts the modal refinement to the executed dry model under H_one, H_div_grad, H_curl_grad; the balanced jet and solid-body rotation on the executed models are only PARTIAL (exactness of the modal operators on the balanced state stays a named hypothesis / oracle). Earlier note: three groups of theorems: (A) rest state on the model with abstract linear transforms, (B) column refinement of '
               'Model/PrimEq.v against the vertical discretisation of the spec, (C) identities of the specification over an '
               'abstract commutative differential ring (non-vacuity: C05_differential_ring_instance, power series over Qc; the '
               'instance theorems use functional extensionality). '
